@@ -30,6 +30,8 @@ def run(ctx):
                          "seeks to Start(2*offset) and sets the counter to it", floor=2)
     ctx.rule("C14.one", "exactly one index entry is consumed per yielded item; without an index none is", floor=2)
     ctx.rule("C14.random", "ShapeReader::seek(i) seeks to Start(2*offset[i]) — the same expression as iteration", floor=1)
+    ctx.rule("C14.order", "index order is preserved from the .shx to the iteration: no reordering, dropping or deduplicating call in "
+                          "any function that parses, stores or walks the index (blacklist over their resolved callees)", floor=3)
     f = iterator_next(F)
     idxf = index_field(F)
     if not f:
@@ -146,3 +148,17 @@ def run(ctx):
                 if 'offset' in ts and 'Mul(' in ts and ', 2)' in ts and 'arg2' in ts:
                     good = True
     ctx.ob("C14.random", "ShapeReader::seek", good, "seeks to %s" % desc, site=ctx.site_of(F, fs[0]["def"]), key="C14.random|seek")
+
+    # --- order ----------------------------------------------------------------------------------
+    from .C20 import REORDER
+    touch = []
+    for g in F.identity_fns():
+        if not g["def"].startswith("reader::"):
+            continue
+        tys = " ".join(l["ty"] for l in g["locals"])
+        if "ShapeIndex" in tys:
+            touch.append(g)
+    for g in touch:
+        bad = [mir.callee_decl(t) for b, t in mir.calls(g) if mir.callee_decl(t) in REORDER]
+        ctx.ob("C14.order", g["def"], not bad, "reordering / dropping calls: %s" % sorted(set(bad)), site=ctx.site_of(F, g["def"]),
+               key="C14.order|%s" % g["def"], trivial=not bad and g["kind"] == "Closure")
